@@ -37,20 +37,25 @@ def _kinds(ucoefs, others):
 
 
 # sqrt(p x + q) = x + r: squaring gives two integer candidates, the smaller of which is not a root
+# a11 x + a12 y = c1 t, a21 x + a22 y = c2 t (second row 0: one equation, two unknowns); x != y in every solution
+SYSTEMS = [(1, 2, 4, 1, -1, 1), (2, 1, 1, 1, 3, -2), (1, 1, 1, 0, 0, 0), (3, -1, 5, 1, 1, 3), (1, 1, 1, 1, -1, 2),
+           (2, -3, 1, 0, 0, 0)]
 RADICALS = [(1, 0, -2), (2, 3, 0), (1, 6, 0), (1, 1, -1), (1, 2, 0), (4, 5, 0), (3, 1, -1)]
 
 CFG = {
-    "quick": dict(TermKinds=_kinds(U_COEFS, OTHERS_QUICK), MaxTerms=3, MaxU=2, Forms={"expr", "eqL", "eqU", "eqO"},
+    "quick": dict(TermKinds=_kinds(U_COEFS, OTHERS_QUICK), MaxTerms=3, MaxU=2, Forms={"expr", "eqL", "eqU", "eqO", "eqS", "eqSS"},
                   ApplyFns={"dota", "plusu", "norm"}, ApplyMaxTerms=2,
                   NonVecKinds={"nu", "dua", "x", "xdab"}, ScalK2={"zero", "one"}, ScalK1={"zero", "one", "y", "yinv"},
-                  ScalK0={"one", "y", "my2", "m1", "dab"}, RadicalEqs=set(RADICALS[:4]), Assigns=vx.ASSIGNS),
-    "thorough": dict(TermKinds=_kinds(U_COEFS, OTHERS_MORE), MaxTerms=4, MaxU=2, Forms={"expr", "eqL", "eqU", "eqO"},
+                  ScalK0={"one", "y", "my2", "m1", "dab"}, RadicalEqs=set(RADICALS[:4]), Systems=set(SYSTEMS[:3]),
+                  ScalApplyFns={"twice", "lin", "sq"}, Assigns=vx.ASSIGNS),
+    "thorough": dict(TermKinds=_kinds(U_COEFS, OTHERS_MORE), MaxTerms=4, MaxU=2, Forms={"expr", "eqL", "eqU", "eqO", "eqS", "eqSS"},
                      ApplyFns={"dota", "twice", "plusu", "norm", "crossb"}, ApplyMaxTerms=2,
                      NonVecKinds={"nu", "dua", "x", "xdab"}, ScalK2={"zero", "one", "y"},
                      ScalK1={"zero", "one", "y", "yinv", "dab", "two"},
-                     ScalK0={"one", "y", "my2", "m1", "dab", "duu", "zero"}, RadicalEqs=set(RADICALS), Assigns=vx.ASSIGNS),
+                     ScalK0={"one", "y", "my2", "m1", "dab", "duu", "zero"}, RadicalEqs=set(RADICALS), Systems=set(SYSTEMS),
+                     ScalApplyFns={"twice", "lin", "sq"}, Assigns=vx.ASSIGNS),
 }
-INVARIANTS = ["TypeOK", "MoveNegates", "Equivalent", "Solution", "RefusalRule", "RadicalsMeaningful"]
+INVARIANTS = ["TypeOK", "MoveNegates", "Equivalent", "Solution", "RefusalRule", "RadicalsMeaningful", "SystemsMeaningful"]
 ORDERS = {"quick": [(0, 1, 2, 3), (2, 1, 0, 3)], "thorough": [(0, 1, 2, 3), (2, 1, 0, 3), (1, 2, 0, 3)]}
 SHARDS = {"quick": 2, "thorough": 8}
 LIMIT_S = 20
@@ -86,8 +91,16 @@ def build_equation(shape, leaves):
         return sp.Eq(_sum(left), _sum(right), evaluate=False)
     if shape["mode"] == "nonvec":
         expr = vx.build(shape["ts"][0], leaves, True)
+        if form == "eqS":
+            return sp.Eq(leaves["vec"][1], expr, evaluate=False)
         return expr if form == "expr" else sp.Eq(expr, 0, evaluate=False)
     x = leaves["scal"][1]
+    if shape["mode"] == "system":
+        sys_, _ = shape["ts"]
+        y, t = leaves["scal"][2], leaves["scal"][3]
+        eqs = [sp.Eq(sys_[o] * x + sys_[o + 1] * y, sys_[o + 2] * t, evaluate=False) for o in (0, 3)
+               if any(sys_[o:o + 3])]
+        return eqs if len(eqs) > 1 else eqs[0]
     if shape["mode"] == "radical":
         p_, q_, r_ = (vx.build(p, leaves, True) for p in shape["ts"])
         if form == "expr":
@@ -105,7 +118,8 @@ def apply_fn(name, leaves):
     from symplyphysics.core.experimental.vectors import VectorCross, VectorDot, VectorNorm
     u, a, b = (leaves["vec"][i] for i in (1, 2, 3))
     return {"dota": lambda s: VectorDot(s, a), "twice": lambda s: s * 2, "plusu": lambda s: s + u,
-            "norm": VectorNorm, "crossb": lambda s: VectorCross(s, b)}[name]
+            "norm": VectorNorm, "crossb": lambda s: VectorCross(s, b),
+            "lin": lambda s: s * leaves["scal"][2] + 1, "sq": lambda s: s**2}[name]
 
 
 def _scale(v, f):
@@ -127,7 +141,8 @@ def replay_one(job):  # pylint: disable=too-many-locals,too-many-branches,too-ma
     u, x = leaves["vec"][1], leaves["scal"][1]
     eqn = build_equation(shape, leaves)
     op = shape["op"]
-    rec = dict(op={"solve": "solve", "apply": "apply", "solve_scalar": "scalar", "solve_radical": "radical"}[op], ts=shape["ts"],
+    rec = dict(op={"solve": "solve", "apply": "apply", "solve_scalar": "scalar", "solve_radical": "radical",
+                   "solve_system": "system"}[op], ts=shape["ts"],
                nonvec=1 if shape["mode"] == "nonvec" else 0, reduce=1 if shape["reduce"] else 0, fn=shape["fn"],
                outcome="eq", lhs=[], rhs=[])
     try:
@@ -136,6 +151,8 @@ def replay_one(job):  # pylint: disable=too-many-locals,too-many-branches,too-ma
                 res = solve_for_vector(eqn, u, reduce_factor=shape["reduce"])
             elif op == "apply":
                 res = apply(eqn, apply_fn(shape["fn"], leaves))
+            elif op == "solve_system":
+                res = solve_for_scalar(eqn, [leaves["scal"][k] for k in shape["ts"][1]])
             else:
                 res = solve_for_scalar(eqn, x)
     except HardTimeout:
@@ -159,6 +176,44 @@ def replay_one(job):  # pylint: disable=too-many-locals,too-many-branches,too-ma
     # ---- an object was returned
     import sympy as sp
     from sympy.logic.boolalg import BooleanFalse, BooleanTrue
+    if op == "solve_system":
+        sys_ = shape["ts"][0]
+        unknowns = {leaves["scal"][1]: 1, leaves["scal"][2]: 2}
+        if not isinstance(res, (list, tuple)):
+            return job, "violation", f"solve_for_scalar returned {type(res).__name__}, not a list of equations", [], str(eqn)
+        sols, und = [], None
+        for eq in res:
+            if not isinstance(eq, sp.Eq) or eq.lhs not in unknowns:
+                und = f"returned {eq}: not an equation for one of the unknowns"
+                continue
+            try:
+                sols.append([unknowns[eq.lhs], vx.compile_expr(eq.rhs, names)[0], eq.rhs])
+            except vx.Outside as e:
+                und = f"returned equation outside the alphabet: {e}"
+        if und:
+            return job, "outside", "solve_for_scalar: " + und[:80], [], str(eqn)
+        rec["sols"] = [[k, prog] for k, prog, _ in sols]
+        bad = []
+        for i, env in enumerate(envs):
+            vals = {1: env[leaves["scal"][1]][1], 2: env[leaves["scal"][2]][1]}
+            done = set()
+            try:
+                for k, _, rhs in sols:
+                    if k not in done:
+                        done.add(k)
+                        vals[k] = vx.evaluate(rhs, env)[1]
+            except vx.Outside as e:
+                return job, "outside", "solve_for_scalar: " + str(e)[:80], [rec], str(eqn)
+            tval = env[leaves["scal"][3]][1]
+            for o in (0, 3):
+                resid = vx.s_add(vx.s_add(vx.s_mul(vx.s_int(sys_[o]), vals[1]), vx.s_mul(vx.s_int(sys_[o + 1]), vals[2])),
+                                 vx.s_neg(vx.s_mul(vx.s_int(sys_[o + 2]), tval)))
+                if resid:
+                    bad.append(f"assignment {i + 1}: the returned equations {res} do not satisfy equation {o // 3 + 1} "
+                               f"(residual {vx.show(('s', resid))})")
+        if bad:
+            return job, "violation", "; ".join(bad[:2]), [rec], str(eqn)
+        return job, "ok", str(res), [rec], str(eqn)
     if op in ("solve_scalar", "solve_radical"):
         recs, bad, und = [], [], None
         k2, k1, k0 = (vx.build(p, leaves, True) for p in shape["ts"])
@@ -256,6 +311,12 @@ def replay_one(job):  # pylint: disable=too-many-locals,too-many-branches,too-ma
                 allowed += [q, _neg(q)]
         else:
             allowed = [e, _neg(e)]
+        sol = exp.get("sol")
+        if d in allowed and sol and sol["k"] != "u":
+            want_sol = vx.from_model(sol)[1]
+            if not vx.same_value("v", want_sol, rv):
+                bad.append(f"assignment {i + 1}: the unknown occurs in no other term, but the right-hand side "
+                           f"{vx.show(rv)} is not its solution {vx.show(('v', want_sol))}")
         if d not in allowed:
             bad.append(f"assignment {i + 1}: lhs - rhs = {vx.show(('v', d))} is not +-E{'/k' if shape['reduce'] else ''} "
                        f"(E = {vx.show(('v', e))}, k in {[vx.show(vx.from_model(k)[:2]) for k in exp['ks']]})")
@@ -270,6 +331,8 @@ def shape_str(shape) -> str:
     if shape["mode"] == "vec":
         body = " ; ".join(f"{side}: (" + " + ".join(vx.prog_str(c, NAMES) for c in cs) + f")*[{vx.prog_str(v, NAMES)}]"
                           for cs, v, side in shape["ts"])
+    elif shape["mode"] == "system":
+        body = f"coefficients {shape['ts'][0]} unknowns requested {['xy'[k - 1] for k in shape['ts'][1]]}"
     else:
         body = " ; ".join(vx.prog_str(p, NAMES) for p in shape["ts"])
     tail = f" reduce={shape['reduce']}" if shape["op"] == "solve" else f" fn={shape['fn']}" if shape["op"] == "apply" else ""
@@ -364,7 +427,7 @@ def main() -> int:
         run.coverage["model_expectations"] = expected
         jobs = []
         for shape in shapes:
-            used = [["vec", 1], ["vec", 2], ["vec", 3]] if shape["mode"] not in ("scalar", "radical") else [["vec", 1]]
+            used = [["vec", 1], ["vec", 2], ["vec", 3]] if shape["mode"] not in ("scalar", "radical", "system") else [["vec", 1]]
             for order in vx.orders_for(used, orders):
                 jobs.append(dict(shape=shape, order=order))
         run.coverage["calls"] = len(jobs)
